@@ -3,7 +3,7 @@ import json
 import re
 
 from .lib import (PLUMBING, callee_allow, callers, closure_args_of_call, const_int, http_error_ctors_on_error_path, operand_local, result_split, status_const_of_ctor, try_edges)
-from .lib_c10 import (HANDLER_CALL, MEMBER_FROM_REQUEST, TOP_FROM_REQUEST, census_owners, closure_site, lift_site, extraction_region, generic_route_handler, impl_fns,
+from .lib_c10 import (HANDLER_CALL, MEMBER_FROM_REQUEST, TOP_FROM_REQUEST, census_owners, closure_site, resolve_place, extraction_region, generic_route_handler, impl_fns,
                       load_panic_table, norm_id, panic_sites, result_guards, tuple_arity, upvar_fields, upvar_origin, upvar_params)
 
 LEVEL = "other"
@@ -48,15 +48,13 @@ def r1_short_circuit(ctx):
     R = ctx.rule("C10.R1", "the single call of HttpHandlerFunc::handle_request is dominated by the Continue edge of `?` on RequestExtractor::from_request(&rqctx, request).await, "
                  "its parameter tuple is that edge's payload, and the Break edge reaches no handler call", floor=10)
     ds = ctx.ds
-    sites = [lift_site(ds, g, bb, t) for g, bb, t in callers(ds, HANDLER_CALL)]
+    sites = callers(ds, HANDLER_CALL)
     top, hb = generic_route_handler(ctx, R)
     ctx.check(R, "single-handler-call-site", len(sites) == 1 and hb is not None and sites[0][0] is hb,
               "HttpHandlerFunc::handle_request is called from: %s (want exactly the generic RouteHandler impl)" % sorted(set(f.id for f, _, _ in sites)), hb)
     if hb is None or len(sites) != 1:
         return
-    # hbb: the block of the handler call in the generic handler (or of the call of the async helper that makes it);
-    # hargs[k]: (slices walked inside such a helper, operand in the generic handler) of the handler call's k-th argument
-    _, hbb, hargs = sites[0]
+    _, hbb, ht = sites[0]
     ex = hb.live_calls(TOP_FROM_REQUEST)
     all_ex = callers(ds, TOP_FROM_REQUEST)
     ctx.check(R, "single-extraction-site", len(ex) == 1 and len(all_ex) == 1,
@@ -106,23 +104,20 @@ def r1_short_circuit(ctx):
     # the error edge returns the extractor's error (converted), not a fresh one
     ctors = [bb for bb, t in hb.live_calls(ANY_CTOR)] + [b for b, _, s in hb.aggregates(r"^error::HttpError$")]
     ctx.check(R, "generic-handler-builds-no-error", not ctors, "HttpError constructor calls / literals in the generic handler: %d" % len(ctors), hb)
-    def harg(k):
-        inner, op = hargs[k]
-        return inner + ([hb.slice(op)] if op is not None else []), (hb.slice(op) if op is not None else None)
-    sls, ps = harg(2)
-    badp = [b for sl in sls for b in callee_allow(sl, chain)]
-    lits = [a for sl in sls for a in sl.atoms if a[0] in ("lit", "const")]
-    from_ex = ps is not None and bool(ps.calls(TOP_FROM_REQUEST))
-    ctx.check(R, "handler-params-are-the-extracted-value", from_ex and not badp and not lits,
-              "params argument: derives from from_request's result=%s, other callees=%s, constants=%d" % (from_ex, sorted(set(b[0] for b in badp)), len(lits)), (hb, hbb))
-    sls, rs = harg(1)
-    pr = upvar_params(ds, hb, rs) if rs is not None else None
-    ctx.check(R, "handler-gets-the-same-rqctx", pr == set(rq) and not [b for sl in sls for b in callee_allow(sl, PLUMBING)],
+    # which value each argument is: resolved through unique moves / captured-environment fields first (a handler call moved
+    # into a helper is inlined here, its arguments then travel through the helper's environment), sliced from there
+    ps = hb.slice(resolve_place(hb, ht["args"][2]))
+    badp = callee_allow(ps, chain)
+    lits = [a for a in ps.atoms if a[0] in ("lit", "const")]
+    ctx.check(R, "handler-params-are-the-extracted-value", bool(ps.calls(TOP_FROM_REQUEST)) and not badp and not lits,
+              "params argument: derives from from_request's result=%s, other callees=%s, constants=%d" % (bool(ps.calls(TOP_FROM_REQUEST)), sorted(set(b[0] for b in badp)), len(lits)), (hb, hbb))
+    rs = hb.slice(resolve_place(hb, ht["args"][1]))
+    pr = upvar_params(ds, hb, rs)
+    ctx.check(R, "handler-gets-the-same-rqctx", pr == set(rq) and not callee_allow(rs, PLUMBING),
               "rqctx argument of the handler call comes from handle_request params %s (want %s)" % (sorted(pr or []), rq), (hb, hbb))
-    sls, hs = harg(0)
-    rf = any(sl.reads_field("handler") for sl in sls)
-    ctx.check(R, "handler-is-the-registered-function", rf and hs is not None and upvar_params(ds, hb, hs) == {1} and not [b for sl in sls for b in callee_allow(sl, PLUMBING)],
-              "receiver of the handler call is self.handler: %s" % rf, (hb, hbb))
+    hs = hb.slice(resolve_place(hb, ht["args"][0]))
+    ctx.check(R, "handler-is-the-registered-function", hs.reads_field("handler") and upvar_params(ds, hb, hs) == {1} and not callee_allow(hs, PLUMBING),
+              "receiver of the handler call is self.handler: %s" % hs.reads_field("handler"), (hb, hbb))
 
 
 # ------------------------------------------------------------------------------------------------ R2
